@@ -45,7 +45,7 @@ var allLinks = []int{linkEthernet, linkRaw, linkIPv4, linkSLL, linkSLL2, linkNul
 var allFormats = []int{fmtPcapLE, fmtPcapBE, fmtPcapNsLE, fmtPcapNsBE, fmtPcapngLE, fmtPcapngBE}
 
 type params struct {
-	MaxLen0     int   `json:"dev0_payload_max"`          // deviation free set: payload bound
+	MaxLen0     int   `json:"dev0_payload_max"`           // deviation free set: payload bound
 	MaxSegs0    int   `json:"segments_per_direction_max"` //
 	MatrixLen   int   `json:"matrix_payload_max"`         // payload bound of the link x format matrix
 	TwoLen      int   `json:"twoconn_payload_max"`        // payload bound per direction with two connections
@@ -53,14 +53,14 @@ type params struct {
 	Dev1Len     int   `json:"dev1_payload_max"`         // payload bound of the single deviation bases
 	Dev1TwoLen  int   `json:"dev1_twoconn_payload_max"` // payload bound of two-connection single deviation bases (0: none)
 	Dev2Len     int   `json:"dev2_payload_max"`         // payload bound of the double deviation bases (0: none)
-	WrapLen     int   `json:"seqwrap_payload_max"` // bases (deviation free and single deviation) with ISNs that wrap around 2^32
+	WrapLen     int   `json:"seqwrap_payload_max"`      // bases (deviation free and single deviation) with ISNs that wrap around 2^32
 	FragGrid    int   `json:"fraggrid_segment_payload_max"`
 	Big         []int `json:"big_payload_pairs"`
 }
 
 func tierParams(r *core.Run) params {
 	if r.Thorough() {
-		return params{MaxLen0: 6, MaxSegs0: 3, MatrixLen: 4, TwoLen: 2, TwoAllFlags: true, Dev1Len: 4, Dev1TwoLen: 1, Dev2Len: 3, WrapLen: 3, FragGrid: 44, Big: []int{4096, 65536}}
+		return params{MaxLen0: 6, MaxSegs0: 3, MatrixLen: 4, TwoLen: 2, TwoAllFlags: true, Dev1Len: 4, Dev1TwoLen: 1, Dev2Len: 2, WrapLen: 3, FragGrid: 44, Big: []int{4096, 65536}}
 	}
 	return params{MaxLen0: 6, MaxSegs0: 3, MatrixLen: 3, TwoLen: 2, TwoAllFlags: false, Dev1Len: 3, Dev1TwoLen: 0, Dev2Len: 0, WrapLen: 2, FragGrid: 28, Big: []int{4096}}
 }
@@ -72,6 +72,7 @@ type explorer struct {
 	levels map[int][]job
 	total  map[string]int64 // generated per section (all shards)
 	mine   map[string]int64
+	sigs   map[string]bool // signatures already reported by this shard (minimise only the first)
 }
 
 func (e *explorer) wants(section string) bool {
@@ -345,16 +346,13 @@ func bigHistories(n int, fn func(specs []ConnSpec, ps []Pkt, kind string)) {
 func run(r *core.Run) {
 	r.Rule("a history is non-trivial when reassembly has work to do: at least two data carrying packets of one direction, or an out-of-order / retransmitted / missing / fragmented packet (keyed by the hash of the packet history)")
 	r.Assume("reference model: RFC 793 byte stream per direction (stream = captured bytes up to the first byte that is in no captured segment; skipped_bytes > 0 iff a captured byte lies behind a missing one), RFC 791 reassembly; client = sender of the first captured segment of the connection")
-	r.Assume("not judged (counted as informational): stream/skipped_bytes of a direction without SYN whose first data byte is not in the capture; has_end of a direction whose FIN overtook missing data or that has no SYN")
+	r.Assume("not judged (counted as informational): stream/skipped_bytes of a direction without SYN whose first data byte is not in the capture; has_end of a direction whose FIN overtook missing data or that has no SYN. A reordered (but captured) first data segment of a handshake-less connection IS judged")
+	r.Assume("sequence numbers wrapping around 2^32 inside a stream are explored in their own section (seqwrap) so that the known gopacket Sequence.Difference defect cannot mask other findings; all other sections use ISNs crossing 0x40000000/0x80000000/0xc0000000 only")
 	r.Assume("extra segments (duplicates, overlapping retransmissions) are placed after the handshake and not after the first FIN; handshakes come first and FIN exchanges last in every history")
 	debug.SetGCPercent(400) // the decode trees are short lived garbage; fewer collections
 	only := os.Getenv("VERIF_ONLY")
-	if only == "probe" {
-		probe(r)
-		return
-	}
 	p := tierParams(r)
-	e := &explorer{r: r, only: only, seen: map[uint64]struct{}{}, levels: map[int][]job{}, total: map[string]int64{}, mine: map[string]int64{}}
+	e := &explorer{r: r, only: only, seen: map[uint64]struct{}{}, levels: map[int][]job{}, total: map[string]int64{}, mine: map[string]int64{}, sigs: map[string]bool{}}
 	e.generate(p)
 	if r.ShardIdx == 0 {
 		for k, v := range e.total {
@@ -499,13 +497,36 @@ func normalise(o Observation) Observation {
 	return o
 }
 
+func (e *explorer) signature(j job, ex expectation, class string) string {
+	sig := class + ":" + j.devs
+	if j.link != linkEthernet || j.format != fmtPcapLE {
+		sig += ":" + linkNames[j.link] + "/" + fmtNames[j.format]
+	}
+	if wrapped(j.specs) {
+		sig = "seq-wrap:" + class
+	}
+	if ex.LenCoincidence {
+		sig = "defrag-ignored-when-payload-len-equals-last-fragment-total-len:" + class
+	}
+	return sig
+}
+
 func (e *explorer) report(j job, ex expectation, ms []mismatch) {
 	for _, m := range ms {
+		sig := e.signature(j, ex, m.class)
+		if e.sigs[sig] {
+			e.r.Violate(sig, "", nil) // folded and counted by core
+			continue
+		}
+		e.sigs[sig] = true
 		// shortest prefix of the history that shows the same class of mismatch
 		ps := j.ps
 		what := m.what
 		for k := 1; k < len(j.ps); k++ {
-			_, _, pm := judge(j.ps[:k], j.specs, j.link, j.format, map[string]int64{})
+			pex, _, pm := judge(j.ps[:k], j.specs, j.link, j.format, map[string]int64{})
+			if e.signature(j, pex, m.class) != sig {
+				continue
+			}
 			hit := false
 			for _, x := range pm {
 				if x.class == m.class {
@@ -520,16 +541,6 @@ func (e *explorer) report(j job, ex expectation, ms []mismatch) {
 		}
 		mj := j
 		mj.ps = ps
-		sig := m.class + ":" + j.devs
-		if wrapped(j.specs) {
-			sig = "seq-wrap:" + m.class
-		}
-		if ex.LenCoincidence {
-			sig = "defrag-ignored-when-payload-len-equals-last-fragment-total-len:" + m.class
-		}
-		if j.link != linkEthernet || j.format != fmtPcapLE {
-			sig += ":" + linkNames[j.link] + "/" + fmtNames[j.format]
-		}
 		e.r.Violate(sig, fmt.Sprintf("%s/%s capture [%s] sent=%s: %s", linkNames[j.link], fmtNames[j.format], histString(ps), specString(j.specs), what), makeCase(mj))
 	}
 }
@@ -586,36 +597,15 @@ func replay(r *core.Run, raw json.RawMessage) bool {
 	cob, bad := observeCLI(buildCapture(c.Pkts, c.Specs, c.Link, format))
 	cb, _ := json.Marshal(cob)
 	fmt.Printf("  fq -c view: %s (ip checksums not valid: %d)\n", cb, bad)
-	if cob.Err == "" {
-		ms = append(ms, compare(ex, cob, info)...)
-	}
 	for _, m := range ms {
-		fmt.Printf("  MISMATCH %s: %s\n", m.class, m.what)
+		fmt.Printf("  MISMATCH (decode tree) %s: %s\n", m.class, m.what)
+	}
+	if cob.Err == "" {
+		cms := compare(ex, cob, info)
+		for _, m := range cms {
+			fmt.Printf("  MISMATCH (fq -c view) %s: %s\n", m.class, m.what)
+		}
+		ms = append(ms, cms...)
 	}
 	return len(ms) > 0
-}
-
-func probe(r *core.Run) {
-	if r.ShardIdx != 0 {
-		return
-	}
-	for _, dir := range []int{0, 1} {
-		var bad []int
-		for l := 1; l <= 40; l++ {
-			specs := []ConnSpec{{}, {HS: true}}
-			specs[1].N[dir] = 2 * l
-			segs := [][]int{{}, {}, {}, {}}
-			segs[2+dir] = []int{l, l}
-			ps := baseHistory(specs, segs, []int{2 + dir, 2 + dir})
-			ps = insertAt(ps, 4, ps[3])
-			_, _, ms := judge(ps, specs, linkEthernet, fmtPcapLE, map[string]int64{})
-			if len(ms) > 0 {
-				bad = append(bad, l)
-				if len(bad) == 1 {
-					fmt.Println(histString(ps), ms[0].what[len(ms[0].what)-120:])
-				}
-			}
-		}
-		fmt.Println("conn1 dir", dir, "bad segment sizes:", bad)
-	}
 }
